@@ -12,33 +12,31 @@ VISIT = T.Abs("Visit")
 
 # ---- tealer/utils/analyses.py::is_int_push_ins -------------------------------------------------------------
 c = contract("tealer/utils/analyses.py::is_int_push_ins", params={"ins": T.Ref("Instruction")},
-             returns=T.Tuple(T.Bool, T.Union(T.NoneT, T.Int, T.Str)), ghost={"v": VISIT}, tags=["C01", "C15"],
-             trusted=True, trusted_reason="body verification pending (C15 stage)")
+             returns=T.Tuple(T.Bool, T.Union(T.NoneT, T.Int, T.Str)), ghost={"v": VISIT}, tags=["C01", "C15", "C06", "C07", "C09", "C10"],
+             raises=[("TealerException", None)])
+
+
+def _ins_sem(ins, v):
+    """instantiate the instruction-level semantics / ghost definitions for `ins` (symbolic mode only)"""
+    from pyvc.values import V as _V
+    if isinstance(ins, _V):
+        from pyvc.dsl import current
+        from spec.avm_axioms import int_push_ins_axioms
+        ctx = current()
+        ctx.st.pc.extend(int_push_ins_axioms(ctx.ex, ctx.st, ins.term, v.term))
+    return True
+
+
+requires(c, "sem", lambda ins, v: _ins_sem(ins, v))
 ensures(c, "lit_value", lambda ins, result, v: Implies(And(result[0], IsInt(result[1])),
-        And(has_int_lit(ins), Eq(int_lit(ins), AsInt(result[1])),
+        lambda: And(has_int_lit(ins), Eq(int_lit(ins), AsInt(result[1])),
             VBool(VAL(v.term, ins.term, 0) == AsInt(result[1]).term),
             AsInt(result[1]) >= 0, AsInt(result[1]) <= 2 ** 64 - 1)))
 ensures(c, "lit_named", lambda ins, result, v: Implies(And(result[0], IsStr(result[1])),
-        And(VBool(VAL(v.term, ins.term, 0) == NAMED(AsStr(result[1]).term)),
+        lambda: And(VBool(VAL(v.term, ins.term, 0) == NAMED(AsStr(result[1]).term)),
             Or(*[Eq(AsStr(result[1]), n) for n in NAMED_CONSTANTS]))),
         note="a named constant denotes its assembler value; only the assembler's names occur in valid programs")
 ensures(c, "push_class", lambda ins, result: Implies(result[0], IsInstance(ins, ("Int", "PushInt", "IntcInstruction"))))
 ensures(c, "lit_exact", lambda ins, result: Iff(has_int_lit(ins), And(result[0], IsInt(result[1]))))
 ensures(c, "none_iff", lambda result: Implies(Not(result[0]), IsNone(result[1])))
 
-# ---- key_helpers.is_value_matches_key -------------------------------------------------------------------------
-c = contract("tealer/analyses/dataflow/transaction_context/utils/key_helpers.py::is_value_matches_key",
-             params={"analysis_key": T.Str, "stack_value": T.Ref("KnownStackValue"),
-                     "key_field": T.Union(T.NoneT, T.Cls("TransactionField"))},
-             returns=T.Bool, ghost={"v": VISIT}, tags=["C10", "C01", "C03"],
-             trusted=True, trusted_reason="body verification pending (C10 stage)")
-ensures(c, "exact", lambda analysis_key, stack_value, key_field, result:
-        Implies(IsNone(key_field), Iff(result, is_field_read(analysis_key, stack_value))))
-ensures(c, "sound", lambda analysis_key, stack_value, key_field, result, v:
-        Implies(And(IsNone(key_field), result, keydef(v, analysis_key)),
-                Eq(ev(v, stack_value, 0), keyfld(v, analysis_key))))
-ensures(c, "exact_f", lambda analysis_key, stack_value, key_field, result:
-        Implies(Not(IsNone(key_field)), lambda: Iff(result, is_field_read_f(analysis_key, stack_value, key_field))))
-ensures(c, "sound_f", lambda analysis_key, stack_value, key_field, result, v:
-        Implies(And(Not(IsNone(key_field)), result, keydef(v, analysis_key)),
-                lambda: Eq(ev(v, stack_value, 0), keyfld_f(v, analysis_key, key_field))))
